@@ -31,6 +31,7 @@ RULE = ('complete simulations: gas bubbles / liquid drops of 1-4 database compou
         'lag on/off; delta_t in {1,10,100,1000, log-uniform}; profiles: world-ocean average without / with computed dissolved gases, '
         'synthetic stratified profiles starting at 0 m or BELOW the surface (top at 10-50 m), without / with dissolved methane, ethane, oxygen, '
         'nitrogen, benzene; still water; plus runs sized to end at the 14-day cap and small soluble bubbles that dissolve completely. '
+        'plus HISTORIES: one particle object and one Model re-used for 2-3 simulate calls that differ in exactly one of yk / de / T0 / z0, each compared with fresh objects. '
         'A simulation is non-trivial when its (particle kind, composition, profile, stop reason, rounded depth/diameter) is new; derivs states are stored rows '
         '(first, second, middle, last two, random), raw integrator states with negative masses and synthetic negative-mass variants, with the flag K_T set to the user factor or to 0')
 LEVEL_NOTE = ('partial: theorems over the reals about the hand-written model of derivs / loop control / initial row for every '
@@ -302,9 +303,89 @@ def check_sim(ctx, idx, c, m, m2, stats):
 
 # ---------------------------------------------------------------------------
 
+# ---------------------------------------------------------------------------
+# histories: ONE particle object and ONE Model re-used for several simulate calls
+# ---------------------------------------------------------------------------
+
+def reuse_histories(ctx, profiles, budget, stats):
+    """one dbm particle object + one single_bubble_model.Model re-used for 2-3 simulate calls that differ in exactly
+    one of {yk, de, T0, z0} (the others fixed).  Every call is compared with (a) the initial masses a FRESH dbm object
+    computes for the same inputs, (b) the complete trajectory of a fresh object in a fresh Model (identical inputs
+    reproduce identical trajectories, whatever was simulated before), and goes through all predicates of check_sim."""
+    r = ctx.rng
+    kinds = ['yk', 'de', 'T0', 'z0']
+    nh = ctx.n(4, 24)
+    deep = [p for p in profiles if p[1].z_max >= 590. and p[1].z_min == 0.]
+    for h in range(nh):
+        vary = kinds[h % 4]
+        name, prf = r.choice(deep)
+        kind = r.choice(['gas', 'liquid']) if (vary == 'yk' or r.random() < 0.8) else 'inert'
+        obj, yk, descr = S.make_dbm_particle(r, kind, nmax=4, nmin=2 if kind != 'inert' else 1)
+        base = dict(z0=r.uniform(100., 400.), de=math.exp(r.uniform(math.log(1.5e-3), math.log(6e-3))),
+                    dT=r.choice([None, r.uniform(1., 10.)]), yk=np.array(yk, dtype=float))
+        variants = [dict(base)]
+        for _ in range(r.randint(1, 2)):
+            v = dict(base)
+            if vary == 'yk':
+                v['yk'] = S.random_yk(r, len(yk))
+            elif vary == 'de':
+                v['de'] = base['de'] * r.uniform(0.5, 1.6)
+            elif vary == 'T0':
+                v['dT'] = r.uniform(0.6, 15.)
+            else:
+                v['z0'] = base['z0'] + r.uniform(20., 150.)
+            variants.append(v)
+        model = None
+        for j, v in enumerate(variants):
+            c = dict(profile=name, descr=dict(descr, yk=[float(x) for x in v['yk']]), z0=v['z0'], x0=0., y0=0., de=v['de'],
+                     dT=v['dT'], K=1., K_T=1., fdis=1e-6, t_hyd=0., lag_time=True, delta_t=100., obj=obj, yk=v['yk'], prf=prf)
+            pub = dict(case_public(c), history=h, call=j, varied=vary,
+                       previous_calls=[{k: (float(x) if not isinstance(x, np.ndarray) and x is not None else (None if x is None else [float(q) for q in x]))
+                                        for k, x in w.items()} for w in variants[:j]])
+            try:
+                m = S.run_sbm(c, budget, model=model)
+                model = m
+                t_re, y_re = np.array(m.t, dtype=float, copy=True), np.array(m.y, dtype=float, copy=True)
+                fresh = S.particle_from_descr(descr)
+                mf = S.run_sbm(dict(c, obj=fresh), budget)
+            except S.BudgetExceeded:
+                ctx.count('re-use history: call dropped (budget)')
+                break
+            except Exception as e:
+                ctx.violation('raises:simulate:' + S.raise_site(e), 'Model.simulate raised on a re-used particle / Model: %s' % str(e)[:200], pub)
+                break
+            ctx.count('re-use history calls')
+            ctx.count('re-use history call %d, varied %s' % (j, vary))
+            ctx.nontrivial.add(('reuse', vary, j, kind, tuple(descr.get('composition', ['inert'])), float('%.4g' % v['z0']), float('%.4g' % v['de'])))
+            check_sim(ctx, 100000 + 10 * h + j, c, m, None, stats)
+            # (a) initial masses against a FRESH dbm object
+            Ta, Sa, P = [float(x) for x in prf.get_values(v['z0'], ['temperature', 'salinity', 'pressure'])]
+            T0 = Ta if v['dT'] is None else Ta + v['dT']
+            with S.quiet():
+                fresh2 = S.particle_from_descr(descr)
+                if kind != 'inert':
+                    m0_ref = np.array(fresh2.masses_by_diameter(v['de'], T0, P, np.array(v['yk'], dtype=float)), dtype=float)
+                else:
+                    m0_ref = np.array([float(fresh2.mass_by_diameter(v['de'], T0, P, Sa, Ta))])
+            if not close([float(x) for x in y_re[0, 3:-1]], [float(x) for x in m0_ref], TOL['gen_vs_source']):
+                ctx.violation('first-row-masses-reused-object',
+                              'particle object re-used for a second simulate: the first stored masses are not those a fresh object computes from the requested diameter and mole fractions',
+                              dict(pub, stored=[float(x) for x in y_re[0, 3:-1]], fresh=[float(x) for x in m0_ref]))
+            # (b) identical inputs, fresh objects: identical trajectory
+            tf, yf = np.asarray(mf.t, dtype=float), np.asarray(mf.y, dtype=float)
+            same = (tf.shape == t_re.shape and yf.shape == y_re.shape and np.array_equal(tf, t_re, equal_nan=True)
+                    and np.array_equal(yf, y_re, equal_nan=True))
+            if not same:
+                ctx.violation('reused-object-differs-from-fresh',
+                              'identical inputs give a different trajectory when the particle object / Model were used for another simulation before',
+                              dict(pub, rows=[int(len(t_re)), int(len(tf))], first_row_reused=[float(x) for x in y_re[0]],
+                                   first_row_fresh=[float(x) for x in yf[0]]))
+
+
 FLOORS_QUICK = {'simulations completed': 24, 'derivs states': 150, 'derivs states with a negative mass': 25,
                 'post-step states': 80, 'raw integrator states with a negative mass (clipped by the loop)': 2,
-                'profile top below the surface': 3, 'heat transfer off from the first pass': 8, 'identical rerun compared': 12}
+                'profile top below the surface': 3, 're-use history calls': 8, 're-use history call 1, varied yk': 1,
+                're-use history call 1, varied de': 1, 're-use history call 1, varied T0': 1, 're-use history call 1, varied z0': 1, 'heat transfer off from the first pass': 8, 'identical rerun compared': 12}
 
 
 def run(ctx, lean_ok):
@@ -497,6 +578,7 @@ def run(ctx, lean_ok):
             for j, cj in enumerate(C if soluble else []):
                 if cj == 0. and ypm[j] > 0.:
                     ctx.violation('rhs-mass-rate-positive-clean-water', 'derivs: component mass rate positive in water free of the compound', dict(pubd, component=j))
+    reuse_histories(ctx, profiles, budget, stats)
     # ---- floors ---------------------------------------------------------------------------------
     ctx.oblige('at least 80 %% of the %d generated simulations complete within the budget of %d right-hand-side evaluations' % (nsim, budget),
                ndropped <= 0.2 * nsim, '%d dropped' % ndropped)
